@@ -340,3 +340,22 @@ def std_plan(tier, nshards=len(ALL_DTYPE_SHARDS), bounds_quick=1):
     nb = bounds_quick if tier == "quick" else nshards
     p += [dict(shard=i, nshards=nshards, mode="bounds") for i in range(nb)]
     return p
+
+
+def add_route(rng, case, p=0.2):
+    """with probability p send a single-key case over the chunk-wise, pre-chunked Arrow or multi-thread route (scaled
+    thresholds; applied by the worker around the check).  The property must hold on every route, and the relational /
+    model-based checks would otherwise only ever see the plain one."""
+    keys = case.get("keys") or []
+    n = case.get("n", 0)
+    if rng.random() >= p or len(keys) != 1 or keys[0]["kind"] in ("cat", "range") or n < 4 or case.get("strategy"):
+        return case
+    r = rng.random()
+    if r < 0.55:
+        case["strategy"] = {"chunk_threshold": int(gen.pick(rng, [2, 4])), "key_chunks": int(rng.integers(2, 6))}
+    elif r < 0.8 and keys[0]["kind"] != "bool" and not case.get("kc"):
+        case["kc"] = ["pa_chunked"]
+        case["ksplits"] = gen.random_splits(rng, n, 5) or [1]
+    else:
+        case["strategy"] = {"rows_per_thread": max(1, n // int(rng.integers(2, 5)))}
+    return case
